@@ -1,0 +1,19 @@
+//go:build verif
+
+package wal
+
+// Contracts for the govc verifier (/verif/DESIGN.md). Comment-only.
+//
+// C12: concurrency classification of the WAL fields.
+//@ shared wal.WAL
+//@ field wal.WAL.mu lock
+//@ field wal.WAL.logger immutable
+//@ field wal.WAL.fd guarded_by(mu)
+//@ field wal.WAL.dir immutable
+//@ field wal.WAL.path immutable
+//@ field wal.WAL.version immutable
+//
+//@ func (*wal.WAL).close
+//@ props C12
+//@ trusted no functional contract yet (C03); only the lock clause is used, checked on the body by the C12 sweep
+//@ holds w.mu
